@@ -1097,6 +1097,8 @@ class DestHandler:
             if (
                 self._params.remote_cfg.disposition_on_cancellation
                 and self._params.finished_params.delivery_code == DeliveryCode.DATA_INCOMPLETE
+                # Without a Metadata PDU, no destination file was created.
+                and self._params.finished_params.file_status == FileStatus.FILE_RETAINED
             ):
                 self.user.vfs.delete_file(self._params.fp.file_name)
                 self._params.finished_params.file_status = FileStatus.DISCARDED_DELIBERATELY
